@@ -113,7 +113,11 @@ func TestVerifShutdownFullQueue(t *testing.T) {
 	}
 	sdDone := make(chan struct{})
 	go func() { p.shutdown(); close(sdDone) }()
-	time.Sleep(1500 * time.Millisecond) // past shutdown's one second grace period, the loop still blocked
+	hold, _ := strconv.Atoi(os.Getenv("VERIF_HOLD_MS"))
+	if hold < 1500 {
+		hold = 1500
+	}
+	time.Sleep(time.Duration(hold) * time.Millisecond) // well past any grace period, the loop still blocked
 	t0 := time.Now()
 	close(gate) // the workers come back and drain the queue
 	select {
